@@ -68,6 +68,12 @@ class Abstraction:
         tracked_t = ra.startswith("self.0.[key]") and ra.endswith(".time_exchange")
         reported_t = rb.startswith(self.R) and rb.endswith(".time_exchange")
         if not (tracked_t and reported_t):
+            # the same comparison stated from the report's side (`!(cur <= upd)` is canonically `upd < cur`)
+            if ra.startswith(self.R) and ra.endswith(".time_exchange") and rb.startswith("self.0.[key]") and rb.endswith(".time_exchange"):
+                if op == "lt":
+                    return cell["order"] == "older"
+                if op == "le":
+                    return cell["order"] in ("older", "equal")
             return None
         # is the tracked time defined in this cell?  (OP: state.Open.0 ; CIF1: state.CancelInFlight.0.order.Some.0)
         if op == "le":
@@ -142,6 +148,10 @@ def _classify_value(ctx, value, R, absn, cell):
         return "set:CIF(Some upd)"
     if r == "ActiveOrderState::Open{0: self.0.[key].as:Occupied.0.state.as:CancelInFlight.0.order.as:Some.0}":
         return "set:Open(stored)"
+    if r == "ActiveOrderState::CancelInFlight{0: CancelInFlight::CancelInFlight{order: Option::Some{0: %s.as:Some.0.state.as:CancelInFlight.0.order.as:Some.0}}}" % R:
+        return "set:CIF(Some upd)"
+    if r == "ActiveOrderState::CancelInFlight{0: CancelInFlight::CancelInFlight{order: Option::Some{0: self.0.[key].as:Occupied.0.state.as:Open.0}}}":
+        return "set:CIF(Some cur)"
     # CIF{order: Some(upd.order.take().filter(pred).unwrap_or_else(|| cur.clone()))}
     v = value
     try:
@@ -186,7 +196,10 @@ def _effects(ctx, b, param):
             out.append((n.rsplit("::", 1)[-1] + "(map)", b.guard(bi), bi, t["sp"], tm[2][-1]))
     for bi, si, path, value, s in b.stores():
         if atoms.mentions_param(_n(path), "self"):
-            out.append(("store:" + render(_n(path)), b.guard(bi), bi, s["sp"], value))
+            # a stored value chosen by an earlier branch (`let o = match ..; state = CIF(Some(o))`, the inlined form of
+            # `.filter(..).unwrap_or_else(..)`) is one effect per choice, each under its own guard
+            for g2, v2 in b.expand_term(b.guard(bi), value):
+                out.append(("store:" + render(_n(path)), g2, bi, s["sp"], v2))
     return out
 
 
